@@ -30,6 +30,8 @@ pub enum Op {
     DeclInt(u8),
     DeclConst(u8),
     DeclQubit(u8),
+    /// `input int x;` / `output int x;` (1) — declarations of the global scope
+    DeclIo(u8, u8),
     /// `int x = y;` — the initializer is a use that precedes the binding of x
     DeclInit(u8, u8),
     /// `let x = y;` at the top level — an alias is a declaration of x whose right-hand side is
@@ -60,7 +62,7 @@ pub enum Op {
     Close,
 }
 
-pub const OPS: [Op; 40] = [
+pub const OPS: [Op; 42] = [
     Op::DeclInt(0),
     Op::DeclInt(1),
     Op::DeclConst(0),
@@ -81,6 +83,7 @@ pub const OPS: [Op; 40] = [
     Op::Close,
     Op::Alias(0, 1),
     Op::AssignIndexed(0, 1),
+    Op::DeclIo(0, 0),
     Op::DeclInit(0, 0),
     Op::DeclInit(0, 1),
     Op::DeclInit(1, 0),
@@ -101,15 +104,17 @@ pub const OPS: [Op; 40] = [
     Op::Alias(0, 0),
     Op::AssignIndexed(1, 0),
     Op::AssignIndexed(0, 0),
+    Op::DeclIo(1, 1),
 ];
-/// the first 28 operations are the quick alphabet; the thorough tier uses all 40
-pub const N_QUICK_OPS: usize = 28;
+/// the first 29 operations are the quick alphabet; the thorough tier uses all 42
+pub const N_QUICK_OPS: usize = 29;
 
 fn op_name(op: Op, names: &[&str; 2]) -> String {
     match op {
         Op::DeclInt(n) => format!("int:{}", names[n as usize]),
         Op::DeclConst(n) => format!("const:{}", names[n as usize]),
         Op::DeclQubit(n) => format!("qubit:{}", names[n as usize]),
+        Op::DeclIo(k, n) => format!("{}:{}", if k == 0 { "input" } else { "output" }, names[n as usize]),
         Op::DeclInit(n, m) => format!("int:{}={}", names[n as usize], names[m as usize]),
         Op::Alias(n, m) => format!("let:{}={}", names[n as usize], names[m as usize]),
         Op::AssignIndexed(n, m) => format!("assign:{}[{}]", names[n as usize], names[m as usize]),
@@ -255,6 +260,13 @@ pub fn render(hist: &[Op], family: usize) -> Option<Rendered> {
                     _ => ("qubit ", ";\n"),
                 };
                 decl(&mut text, &mut events, &mut scopes, name, pre, post, &mut nontrivial);
+            }
+            Op::DeclIo(k, n) => {
+                // I/O declarations belong to the global scope
+                if !frames.is_empty() {
+                    return None;
+                }
+                decl(&mut text, &mut events, &mut scopes, names[n as usize], if k == 0 { "input int " } else { "output int " }, ";\n", &mut nontrivial);
             }
             Op::DeclInit(n, m) => {
                 if in_for_body_of == Some(n) {
